@@ -332,7 +332,7 @@ func TestC12(t *testing.T) {
 	if env.Thorough() {
 		nv = 20
 	}
-	tp := &twoPass{id: "C12", salt: 12, checks: env.Pick(700, 20000), rec: rec,
+	tp := &twoPass{id: "C12", salt: 12, checks: env.Pick(700, 7000), rec: rec,
 		gen: func(t *rapid.T) *flowCase { return genFlowCase(t, gogen.DispatchProfile(off), nv) },
 		judge: func(rt *rapid.T, c *flowCase, res *native.Result) {
 			d := dynamicCalls(res)
@@ -490,7 +490,7 @@ func TestC18(t *testing.T) {
 	if env.Thorough() {
 		nv = 20
 	}
-	tp := &twoPass{id: "C18", salt: 18, checks: env.Pick(700, 20000), rec: rec,
+	tp := &twoPass{id: "C18", salt: 18, checks: env.Pick(700, 7000), rec: rec,
 		gen: func(t *rapid.T) *flowCase { return genFlowCase(t, gogen.DispatchProfile(off), nv) },
 		judge: func(rt *rapid.T, c *flowCase, res *native.Result) {
 			d := dynamicCalls(res)
